@@ -620,6 +620,11 @@ impl CraneliftCompiler {
                         };
 
                         self.set_dst(bcx, &insn, res_wide);
+                    } else if ty != I64 {
+                        let src = self.insn_dst(bcx, &insn);
+                        let src_narrow = bcx.ins().ireduce(ty, src);
+                        let res_wide = bcx.ins().uextend(I64, src_narrow);
+                        self.set_dst(bcx, &insn, res_wide);
                     }
                 }
 
